@@ -307,6 +307,16 @@ def run_shard(sh):
                             dst = Fmt(dsig, dnw, dnf)
                             for route in ROUTES:
                                 judge(acc, src, dst, 'trunc', 'saturate', cs, (len(cs),), route, 'G')
+                            if snf > dnf:
+                                # fraction bits are dropped: codes one source LSB away from the destination grid and from its ties (only
+                                # a rounding that looks at ALL dropped bits gets them right), by every route and every direction of rounding
+                                sh_ = snf - dnf
+                                near = sorted({c for m in (0, 1, -1, 3, -3, (src.hi >> sh_), (src.lo >> sh_) + 1) for c in
+                                               ((m << sh_) - 1, (m << sh_) + 1, (m << sh_) + (1 << (sh_ - 1)) - 1, (m << sh_) + (1 << (sh_ - 1)) + 1,
+                                                (m << sh_) + (1 << (sh_ - 1)), m << sh_) if src.lo <= c <= src.hi})
+                                for (r, o) in (('floor', 'saturate'), ('ceil', 'saturate'), ('around', 'wrap'), ('fix', 'saturate')):
+                                    for route in ROUTES:
+                                        judge(acc, src, dst, r, o, near, (len(near),), route, 'Gn')
                             for c in (src.lo, src.hi):
                                 # scalar sources, and sources that are elements read from an array (NumPy scalars inside)
                                 for route in ROUTES + ('setitem_elem',):
